@@ -15,24 +15,51 @@ from harness.common.util import InfraError
 ID = "C19"
 LEAN_MODULES = ["MpfVerif.Props.C19"]
 PROPS_FILE = "MpfVerif/Props/C19.lean"
-GEN = []
+
+
+def _gen_bcp_tables():
+    from translate import bcp_tables
+    return bcp_tables.generate()
+
+
+def _gen_bcp_codec():
+    from translate import bcp_codec
+    return bcp_codec.generate()
+
+
+GEN = [_gen_bcp_tables, _gen_bcp_codec]
 MANIFEST = {
-  "text": "Proof on a byte-level Lean model of the BCP encoder, decoder and receiver: decode(encode cmd kw) = (cmd, kw) for every command and every list of distinct scalar parameters over arbitrary byte strings (incl. %XX, type-like prefixes, separators), ints, float texts, bools, None; the JSON branch hands the encoder's JSON text unchanged to the parser (abstract codec); the receiver's frames depend only on the byte sequence (any chunking) and every frame list is delivered completely and in order. The model is tied to bcp_socket_client.py by a correspondence run (encode, decode incl. a malformed stream, reader frames under random chunkings) on every check.",
-  "note": "Trusted: Lean kernel + {propext, Classical.choice, Quot.sound}; the hand-written model Model/Bcp.lean (validated only by differential runs); urllib.parse.quote/unquote/urlsplit, json, float repr and asyncio.StreamReader are modelled, not verified. Known finding: a scalar parameter named 'bytes' collides with the payload marker.",
-  "technique": "Lean 4 theorems (induction over byte lists / parameter lists) on a hand model + differential correspondence with the real encoder/decoder/reader",
+  "text": "Proof on a byte-level Lean model of the BCP encoder, decoder and receiver: decode(encode cmd kw) = (cmd, kw) for every command and every list of distinct scalar parameters over arbitrary byte strings (incl. %XX, type-like prefixes, separators), ints, float texts, bools, None; the JSON branch hands the encoder's JSON text unchanged to the parser, and json.dumps/json.loads are a CONCRETE codec in the model (null/true/false/ints/float texts/strings over all Unicode scalar values with ensure_ascii escapes and surrogate pairs/lists/dicts, any nesting) with jdec(jenc v) = v proved; the receiver's frames depend only on the byte sequence (any chunking), every frame list is delivered completely and in order, and with any number of clients whose reads interleave arbitrarily each client's known commands are dispatched in the order sent with their own payload only (unknown commands skipped). Tie to the source: decode_command_string and encode_command_string are translated whole from the Python AST into data for a fixed interpreter and proved EQUAL to the model's decode / encodeFlat / encodeJson for every input (codec_refines_source, no hypotheses); the branch tables (isinstance order, prefixes, slice offsets, safe argument, separators, BYTE_MARKER) are regenerated as well and the table-driven functions the Lean driver runs are proved equal to the hand model (tables_refine_model, tables_consistent). Correspondence on every check: encode, decode incl. a malformed stream, json.dumps/json.loads vs the concrete codec, reader frames under random chunkings, and real machines (BcpTransportManager, BcpInterface, BcpServer, BCPClientSocket on in-memory sockets) with 1-4 clients, interleaved chunked streams with payloads, unknown commands, clients connecting later / closing, and the sender path (events and direct sends of nested values read back by the real AsyncioBcpClientSocket).",
+  "note": "Trusted: Lean kernel + {propext, Classical.choice, Quot.sound}; the interpreter Model/PyStr.lean and the meaning of its primitives (urllib.parse.quote/unquote/urlsplit/urlunparse as modelled byte-level functions, byte-level slices, ASCII lower()); CPython float repr round-trip (floats are carried as text; float() of a malformed text is not modelled); asyncio.StreamReader.readuntil/readexactly; read_message itself is hand-modelled (source-pinned, tied by correspondence). Known finding: a scalar parameter named 'bytes' collides with the payload marker.",
+  "technique": "Lean 4 theorems (induction over byte lists / parameter lists / schedules / nested JSON values); Python-AST -> deep-embedding translator with refinement proofs gen = hand; differential correspondence with the real encoder/decoder/reader/transport manager/interface",
+  "translated": True,
  }
-RULE = ("cases: (a) command + parameter dict over str/int/float/bool/None (+ nested list/dict for the JSON branch), strings "
-        "biased to %XX, type-like prefixes, separators, newlines, non-BMP; (b) raw query strings from a 12-symbol alphabet "
-        "(malformed stream) decoded by implementation and model; (c) streams of 1-5 messages with optional byte payloads "
-        "under random chunkings (down to single bytes). non-trivial = the case contains a character outside the unreserved "
-        "set, a typed/nested value, a payload, or more than one chunk; distinct = canonical JSON of the case")
+RULE = ("cases: (a) command + parameter dict over str/int/float/bool/None (+ nested list/dict for the JSON branch, also compared "
+        "with the model's concrete JSON codec), strings biased to %XX, type-like prefixes, separators, newlines, non-BMP; (b) raw "
+        "query strings from a 12-symbol alphabet (malformed stream) decoded by implementation and model; (c) streams of 1-5 "
+        "messages with optional byte payloads under random chunkings (down to single bytes); (d) real machines with 1-3 outgoing "
+        "and optionally one incoming BCP client, 1-5 valid messages per client (registered commands with flat / JSON parameters, "
+        "payloads, the same line repeated with the payload toggled, trigger -> event, unknown commands, a command answered with "
+        "an error reply), every client's stream chunked at random and the chunks of all clients merged at random, optional clean "
+        "close; (e) a client torn off in the middle of a line or payload (recorded, not judged); (f) sender: 1-6 sends of flat / "
+        "nested parameters to one / all clients / through a registered trigger event, wire bytes read back by the real "
+        "AsyncioBcpClientSocket under a random chunking; (g) lines below and above the stream reader's 64 KiB limit through the "
+        "socket classes and a real machine; (h) objects json does not know (MpfJSONEncoder.default). non-trivial = the case "
+        "contains a character outside the unreserved set, a typed/nested value, a payload, more than one chunk or more than one "
+        "client; distinct = canonical JSON of the case")
 TRUSTED = [
-    "modelled, not verified: urllib.parse.quote/unquote/urlsplit/urlunparse, json.dumps/json.loads (abstract codec with "
-    "dec(enc v)=v and no raw newline as hypotheses), CPython float repr round-trip, asyncio.StreamReader.readline/readexactly",
-    "Model/Bcp.lean is hand-written; tied to mpf/core/bcp/bcp_socket_client.py by correspondence on every run",
+    "modelled, not verified: urllib.parse.quote/unquote/urlsplit/urlunparse (byte-level primitives of Model/PyStr.lean and "
+    "Model/Bcp.lean), CPython float repr round-trip, asyncio.StreamReader.readuntil/readexactly, the event queue of the machine",
+    "json.dumps/json.loads: concrete model (Model/BcpJson.lean) compared with CPython's json on every nested case; not modelled: "
+    "non-str dict keys, NaN, int digit limit, recursion limit, duplicate keys",
+    "translate/bcp_codec.py + the interpreter Model/PyStr.lean give decode_command_string / encode_command_string their meaning; "
+    "read_message, BcpTransportManager and BcpInterface are hand-modelled (Model/Bcp.lean reader, Model/BcpMux.lean), "
+    "source-pinned and tied by correspondence",
 ]
 ASSUMPTIONS = ["parameter names are str; nested dict keys are str; no NaN; no lone surrogates (cannot be UTF-8 encoded)",
-               "a parameter literally named 'bytes' collides with the wire protocol's payload marker (known finding)"]
+               "a parameter literally named 'bytes' collides with the wire protocol's payload marker (known finding)",
+               "receiver-side cases send only well-formed messages whose parameters fit the registered callback (a missing / "
+               "unexpected parameter, int:zz, a stream torn mid-message are outside the property and recorded as counters)"]
 
 ALPHA = ["a", "%", "4", "1", ":", "&", "=", "i", "n", "t", "+", "?"]
 NASTY = ["100%41", "int:5", "bool:true", "bool:False", "NoneType:", "float:x", "float:1.5", "%", "%4", "%zz", "a&b=c",
@@ -349,6 +376,498 @@ def malformed_case(ctx, m, r, model):
         ctx.compare(case, impl, ans)
 
 
+
+# ------------------------------------------------------------------------------------------------------------------------------
+# receiver side through the real BcpTransportManager / BcpInterface of a real machine, sender side through the real
+# BcpInterface / BcpTransportManager / BCPClientSocket.send
+
+RESERVED_KEYS = ("client", "rawbytes", "bytes", "json")
+TRIGGER_RESERVED = ("name", "callback", "event", "priority", "queue", "_from_bcp")
+
+
+def clean_kwargs(kw, extra=()):
+    return {k: v for k, v in kw.items() if k not in RESERVED_KEYS and k not in extra}
+
+
+def gen_messages(r, client_no):
+    """valid messages for one client: (kind, cmd, kwargs, payload)"""
+    msgs = []
+    for j in range(r.randint(1, 5)):
+        k = r.random()
+        if msgs and k < 0.25:
+            # the same line again, payload toggled: a receiver that shares decoded kwargs between equal lines leaks rawbytes
+            kind, cmd, kw, payload = msgs[-1]
+            if kind in ("rec", "trigger"):
+                payload = None if payload is not None else bytes(r.choice([10, 38, 0, 255, 61, r.randint(0, 255)])
+                                                                 for _ in range(r.randint(1, 9)))
+            msgs.append((kind, cmd, dict(kw), payload))
+            continue
+        nested = r.random() < 0.3
+        payload = None
+        if r.random() < 0.35:
+            payload = bytes(r.choice([10, 13, 38, 0, 255, 98, 61, r.randint(0, 255)]) for _ in range(r.randint(1, 12)))
+        if k < 0.6:
+            msgs.append(("rec", r.choice(["rec", "rec2"]), clean_kwargs(gen_kwargs(r, nested)), payload))
+        elif k < 0.8:
+            kw = clean_kwargs(gen_kwargs(r, nested), TRIGGER_RESERVED)
+            kw = {kk: v for kk, v in kw.items() if kk.isidentifier()}
+            kw["name"] = "c19_ev_%d" % r.randint(0, 2)
+            kw["src"] = client_no
+            msgs.append(("trigger", "trigger", kw, None))
+        elif k < 0.9:
+            msgs.append(("unknown", "nope_%d" % r.randint(0, 3), clean_kwargs(gen_kwargs(r, False)), None))
+        else:
+            msgs.append(("error-reply", "monitor_start", {"category": "bogus_%d" % r.randint(0, 9)}, None))
+    return msgs
+
+
+def wire_of(m, msgs):
+    data = b""
+    for kind, cmd, kw, payload in msgs:
+        line = m.encode_command_string(cmd, **kw)
+        if payload is not None:
+            line += "&bytes=%d" % len(payload)
+        data += line.encode() + b"\n" + (payload or b"")
+    return data
+
+
+def random_chunks(r, data, single=True):
+    if len(data) <= 1 or r.random() < 0.15:
+        return [data] if data else []
+    if single and r.random() < 0.1:
+        return [bytes([b]) for b in data]
+    cuts = sorted(r.sample(range(1, len(data)), min(len(data) - 1, r.randint(1, 7))))
+    return [data[i:j] for i, j in zip([0] + cuts, cuts + [len(data)])]
+
+
+def expected_dispatch(msgs):
+    exp = []
+    for kind, cmd, kw, payload in msgs:
+        if kind in ("rec", "trigger"):
+            e = dict(kw)
+            if payload:
+                e["rawbytes"] = payload
+            exp.append([cmd, typed(e)])
+    return exp
+
+
+def run_dispatch(m, spec):
+    """Drive a real machine.  spec: {"n_out", "clients": {name: {"msgs"|"data", "chunks": [hex]}}, "sched": [[name, i]],
+    "incoming_at": step or None, "close": {name: "clean"|"mid-line"|"mid-payload"}} -> observations"""
+    from harness.common.bcp_c19 import BcpMachine
+    bm = BcpMachine(spec["n_out"]).start()
+    try:
+        logs = {}
+        frames = {}
+
+        def log_for(client):
+            return logs.setdefault(client, [])
+
+        names = {}
+
+        def name_of(client):
+            return names.get(id(client), client.name)
+
+        async def rec(client, **kw):
+            log_for(name_of(client)).append(["rec", typed(kw)])
+
+        async def rec2(client, **kw):
+            log_for(name_of(client)).append(["rec2", typed(kw)])
+        bm.machine.bcp.interface.register_command_callback("rec", rec)
+        bm.machine.bcp.interface.register_command_callback("rec2", rec2)
+        order = spec["order"]
+        events = {}
+        orig_trigger = bm.machine.bcp.interface.bcp_receive_commands["trigger"]
+
+        async def trigger_spy(client, **kw):
+            log_for(name_of(client)).append(["trigger", typed(kw)])
+            return await orig_trigger(client=client, **kw)
+        bm.machine.bcp.interface.bcp_receive_commands["trigger"] = trigger_spy
+
+        def on_event(ev):
+            def h(**kwargs):
+                kw = dict(kwargs)
+                kw.pop("_from_bcp", None)
+                src = kw.get("src")
+                kw["name"] = ev
+                events.setdefault(order[src] if isinstance(src, int) and 0 <= src < len(order) else "?", []).append(
+                    ["trigger", typed(kw)])
+            return h
+        for i in range(3):
+            bm.machine.events.add_handler("c19_ev_%d" % i, on_event("c19_ev_%d" % i))
+
+        def spy_on(client, label):
+            orig = client._process_command
+            fl = frames.setdefault(label, [])
+
+            def spy(message, rawbytes=None, _o=orig):
+                fl.append([message.hex(), (rawbytes or b"").hex()])
+                return _o(message, rawbytes)
+            client._process_command = spy
+        for i in range(spec["n_out"]):
+            spy_on(bm.client(bm.name(i)), bm.name(i))
+            bm.sent(bm.name(i))
+        crashed = None
+        for step, (name, idx) in enumerate(spec["sched"]):
+            if name == "in0" and "in0" not in bm.socks:
+                cl, label = bm.connect_incoming()
+                names[id(cl)] = label
+                spy_on(cl, label)
+            bm.socks[name].recv_queue.append(bytes.fromhex(spec["clients"][name]["chunks"][idx]))
+            if spec["run_after"][step]:
+                crashed = bm.run()
+                if crashed is not None:
+                    break
+        if crashed is None:
+            crashed = bm.run()
+        closed = {}
+        for name, how in (spec.get("close") or {}).items():
+            if crashed is not None or name not in bm.socks:
+                break
+            bm.close(name)
+            crashed = bm.run()
+            closed[name] = [c.name for c in bm.machine.bcp.transport.get_all_clients()]
+        replies = {n: bm.sent(n).decode("utf-8", "replace") for n in bm.socks}
+        return {"logs": logs, "events": events, "frames": frames, "crash": repr(crashed) if crashed is not None else None,
+                "loop_errors": list(bm.loop_errors), "replies": replies, "closed": closed,
+                "registered": [names.get(id(c), c.name) for c in (bm.machine.bcp.transport.get_all_clients() if bm.machine else [])]}
+    finally:
+        bm.stop()
+
+
+def gen_dispatch_spec(m, r):
+    n_out = r.choice([1, 2, 2, 3])
+    from harness.common.bcp_c19 import BcpMachine
+    order = [BcpMachine.name(i) for i in range(n_out)]
+    if r.random() < 0.35:
+        order.append("in0")
+    clients = {}
+    msgs_of = {}
+    for no, name in enumerate(order):
+        msgs = gen_messages(r, no)
+        msgs_of[name] = msgs
+        data = wire_of(m, msgs)
+        clients[name] = {"data": data.hex(), "chunks": [c.hex() for c in random_chunks(r, data)]}
+    # a random merge of the clients' chunk lists
+    pos = {n: 0 for n in order}
+    sched = []
+    live = [n for n in order if clients[n]["chunks"]]
+    while live:
+        n = r.choice(live)
+        sched.append([n, pos[n]])
+        pos[n] += 1
+        if pos[n] == len(clients[n]["chunks"]):
+            live.remove(n)
+    run_after = [r.random() < 0.7 for _ in sched]
+    close = {}
+    if r.random() < 0.3:
+        close[r.choice(order)] = "clean"
+    spec = {"n_out": n_out, "order": order, "clients": clients, "sched": sched, "run_after": run_after, "close": close}
+    return spec, msgs_of
+
+
+def dispatch_case(ctx, m, r, model):
+    spec, msgs_of = gen_dispatch_spec(m, r)
+    expected = {n: expected_dispatch(ms) for n, ms in msgs_of.items()}
+    case = {"kind": "dispatch", "spec": spec, "expected": expected}
+    ctx.evaluated(case, True)
+    ctx.count("dispatch_clients", len(spec["order"]))
+    for ms in msgs_of.values():
+        for kind, cmd, kw, payload in ms:
+            ctx.count("dispatch_msg_" + kind)
+            if payload is not None:
+                ctx.count("dispatch_payloads")
+    if "in0" in spec["order"]:
+        ctx.count("dispatch_incoming_client")
+    obs = run_dispatch(m, spec)
+    check_dispatch(ctx, case, obs)
+    # observed, outside the property: the reply to a bogus monitor category
+    for n, ms in msgs_of.items():
+        for kind, cmd, kw, payload in ms:
+            if kind == "error-reply":
+                ctx.count("error_reply_seen" if ("error?cmd=monitor_start" in obs["replies"].get(n, "")) else "error_reply_missing")
+    for n, how in spec["close"].items():
+        if n in obs["closed"]:
+            ctx.count("closed_client_unregistered" if n not in obs["closed"][n] and (n != "in0") else "closed_client_other")
+    if model is not None and obs["crash"] is None:
+        for n in spec["order"]:
+            model.ask("reset")
+            mframes = []
+            for c in spec["clients"][n]["chunks"]:
+                ans = model.ask("feed " + (c or "-"))
+                if ans != "ok":
+                    for fr in ans.split(" ")[1:]:
+                        a, b = fr.split("/")
+                        mframes.append([a if a != "-" else "", b if b != "-" else ""])
+            ctx.compare({"kind": "dispatch", "client": n, "chunks": spec["clients"][n]["chunks"], "what": "frames of one client"},
+                        obs["frames"].get(n, []), mframes)
+
+
+def check_dispatch(ctx, case, obs):
+    """the property on the receiver side: every client's messages are dispatched completely, in the order sent, with
+    exactly the parameters sent and the payload only on the message that carried it - whatever the chunking and the
+    interleaving with other clients"""
+    expected = case["expected"]
+    if obs["crash"] is not None or obs["loop_errors"]:
+        ctx.fail("dispatch-crash", case, {"crash": obs["crash"], "loop_errors": obs["loop_errors"][:3]})
+        return False
+    for n, exp in expected.items():
+        got = obs["logs"].get(n, [])
+        if got != exp:
+            ctx.fail("dispatch-order" if sorted(map(repr, got)) == sorted(map(repr, exp)) else "dispatch", case,
+                     {"client": n, "got": got, "expected": exp})
+            return False
+        # the events posted by the dispatched `trigger` commands reach their handlers in the same order, same parameters
+        exp_ev = [[c, ["dict", sorted(k[1], key=repr)]] for c, k in exp if c == "trigger"]
+        got_ev = [[c, ["dict", sorted(k[1], key=repr)]] for c, k in obs["events"].get(n, [])]
+        if got_ev != exp_ev:
+            ctx.fail("dispatch-order" if sorted(map(repr, got_ev)) == sorted(map(repr, exp_ev)) else "dispatch", case,
+                     {"client": n, "events": got_ev, "expected": exp_ev})
+            return False
+    stray = [n for n in obs["logs"] if n not in expected and obs["logs"][n]]
+    if stray:
+        ctx.fail("dispatch", case, {"stray": {n: obs["logs"][n] for n in stray}})
+        return False
+    return True
+
+
+def disconnect_case(ctx, m, r):
+    """a client whose connection ends in the middle of a message.  The property quantifies over splittings of complete
+    streams, so what happens to the torn message is recorded, not judged; the messages BEFORE the tear must have been
+    dispatched in order (they were sent completely)."""
+    from harness.common.bcp_c19 import BcpMachine
+    msgs = [x for x in gen_messages(r, 1) if x[0] == "rec"] or [("rec", "rec", {"a": "b"}, None)]
+    data = wire_of(m, msgs)
+    torn_kind = r.choice(["mid-line", "mid-payload"])
+    if torn_kind == "mid-line":
+        tail = b"rec?torn=value_not_complete"
+        tail = tail[:r.randint(1, len(tail) - 1)]
+    else:
+        tail = b"rec?torn=1&bytes=9\n" + b"abcdefghi"[:r.randint(0, 8)]
+    spec = {"n_out": 2, "order": ["local_display", "c1"],
+            "clients": {"c1": {"data": (data + tail).hex(), "chunks": [c.hex() for c in random_chunks(r, data + tail)]}},
+            "sched": [], "run_after": [], "close": {"c1": torn_kind}}
+    spec["sched"] = [["c1", i] for i in range(len(spec["clients"]["c1"]["chunks"]))]
+    spec["run_after"] = [True] * len(spec["sched"])
+    case = {"kind": "disconnect", "spec": spec, "expected": {"c1": expected_dispatch(msgs)}}
+    ctx.evaluated(case, True)
+    ctx.count("disconnect_" + torn_kind)
+    obs = run_dispatch(m, spec)
+    got = obs["logs"].get("c1", [])
+    exp = case["expected"]["c1"]
+    if got[:len(exp)] != exp:
+        ctx.fail("dispatch", case, {"client": "c1", "got": got, "expected_prefix": exp})
+        return
+    if len(got) > len(exp):
+        ctx.count("observed_outside_property_torn_line_dispatched_as_command")
+    if obs["crash"] is not None or obs["loop_errors"]:
+        ctx.count("observed_outside_property_torn_message_kills_receiver")
+    else:
+        ctx.count("torn_message_no_crash")
+
+
+def run_sender(m, ops):
+    """ops: [how, target, cmd, typed kwargs] -> (crash, wire bytes per client, expected messages per client)"""
+    from harness.common.bcp_c19 import BcpMachine
+    bm = BcpMachine(2).start()
+    try:
+        names = ["local_display", "c1"]
+        expected = {n: [] for n in names}
+        # c1 asks for an event by BCP; the event is then posted inside MPF with generated parameters
+        bm.socks["c1"].recv_queue.append(b"register_trigger?event=c19_out\n")
+        crash = bm.run()
+        for how, target, cmd, tkw, run_after in ops:
+            kw = untyped(tkw)
+            if how == "event":
+                bm.machine.events.post("c19_out", **kw)
+                expected["c1"].append(["trigger", typed(dict([("name", "c19_out")] + list(kw.items())))])
+            elif how == "all":
+                bm.machine.bcp.transport.send_to_all_clients(cmd, **kw)
+                for n in names:
+                    expected[n].append([cmd, typed(kw)])
+            else:
+                bm.machine.bcp.transport.send_to_client(bm.client(target), cmd, **kw)
+                expected[target].append([cmd, typed(kw)])
+            if how == "event" or run_after:      # a posted event is handled by the event queue, not at once
+                crash = crash or bm.run()
+        crash = crash or bm.run()
+        wire = {n: bm.sent(n) for n in names}
+    finally:
+        bm.stop()
+    return crash, wire, expected
+
+
+def sender_case(ctx, m, r, model):
+    """MPF -> remote: values handed to the real BcpInterface / BcpTransportManager / BCPClientSocket.send, read back from the
+    socket by the real AsyncioBcpClientSocket under a random chunking"""
+    ops = []
+    for j in range(r.randint(1, 6)):
+        nested = r.random() < 0.4
+        kw = clean_kwargs(gen_kwargs(r, nested), TRIGGER_RESERVED)
+        kw = {k: v for k, v in kw.items() if k.isidentifier()}
+        ops.append([r.choice(["client", "all", "event"]), r.choice(["local_display", "c1"]), gen_cmd(r), typed(kw),
+                    r.random() < 0.5])
+    crash, wire, expected = run_sender(m, ops)
+    case = {"kind": "sender", "ops": ops, "expected": expected}
+    ctx.evaluated(case, True)
+    ctx.count("sender_msgs", len(ops))
+    if crash is not None:
+        ctx.fail("sender-crash", case, {"crash": repr(crash)})
+        return
+    check_sender(ctx, m, r, dict(case, wire={n: w.hex() for n, w in wire.items()}))
+
+
+def check_sender(ctx, m, r, case):
+    for n, exp in case["expected"].items():
+        data = bytes.fromhex(case["wire"][n])
+        chunks = random_chunks(r, data) if r is not None else [data]
+        fd = ChunkFeeder(m, "asyncio")
+        out, err = fd.run(chunks)
+        got = [[c, typed(k)] for c, k in out]
+        if err is not None or not got or got[0][0] != "hello":
+            ctx.fail("sender", case, {"client": n, "error": err, "got": got[:3], "what": "hello is not the first message"})
+            return False
+        if got[1:] != exp:
+            ctx.fail("sender", case, {"client": n, "got": got[1:], "expected": exp})
+            return False
+        if data.count(b"\n") != len(got):
+            ctx.fail("sender", case, {"client": n, "what": "more lines on the wire than messages", "lines": data.count(b"\n")})
+            return False
+    return True
+
+
+LONG_LIMIT = 2 ** 16     # asyncio.StreamReader's default buffer limit (what open_connection / start_server give MPF)
+
+
+def long_line_case(ctx, m, r, model):
+    """one parameter value long enough that the encoded line exceeds the stream reader's default limit; through the real
+    reader of the socket client classes and through a real machine's transport manager"""
+    n = r.choice([LONG_LIMIT - 200, LONG_LIMIT + 1, LONG_LIMIT * 2 + 5, 3 * LONG_LIMIT])
+    case = {"kind": "long-line", "client": r.choice(["asyncio", "mpf"]), "value_len": n, "filler": r.choice(["x", "y%", "ab"])}
+    ctx.evaluated(case, True)
+    long_line_run(ctx, m, r, case)
+
+
+def long_line_run(ctx, m, r, case):
+    n, filler, which = case["value_len"], case["filler"], case["client"]
+    kw = {"a": 1, "v": (filler * n)[:n], "z": None}
+    msgs = [("rec", {"first": "1"}, None), ("rec2", kw, None), ("rec", {"k": "v"}, bytes([10, 38, 1]))]
+    data = b""
+    expected = []
+    for cmd, k, payload in msgs:
+        line = m.encode_command_string(cmd, **k)
+        if payload is not None:
+            line += "&bytes=%d" % len(payload)
+        data += line.encode() + b"\n" + (payload or b"")
+        e = dict(k)
+        if payload:
+            e["rawbytes"] = payload
+        expected.append([cmd, typed(e)])
+    ctx.count("long_line_over_limit" if len(data) > LONG_LIMIT else "long_line_under_limit")
+    sig = "line-longer-than-reader-limit" if len(data) > LONG_LIMIT else "stream-roundtrip"
+    for chunks in ([data], random_chunks(r, data, False) if r is not None else [data[:70000], data[70000:]]):
+        fd = ChunkFeeder(m, which)
+        out, err = fd.run([c for c in chunks if c])
+        got = [[c, typed(k)] for c, k in out]
+        if err is not None or got != expected:
+            ctx.fail(sig, case, {"error": err, "delivered": [g[0] for g in got], "expected": [e[0] for e in expected]})
+            return
+    # the same stream through a real machine: socket -> BCPClientSocket -> BcpTransportManager -> BcpInterface
+    chunks = random_chunks(r, data, False) if r is not None else [data]
+    spec = {"n_out": 1, "order": ["local_display"], "clients": {"local_display": {"data": "", "chunks": [c.hex() for c in chunks]}},
+            "sched": [["local_display", i] for i in range(len(chunks))],
+            "run_after": [r is None or r.random() < 0.7 for _ in chunks], "close": {}}
+    obs = run_dispatch(m, spec)
+    got = obs["logs"].get("local_display", [])
+    if obs["crash"] is not None or obs["loop_errors"] or got != expected:
+        ctx.fail(sig, dict(case, machine=True),
+                 {"crash": obs["crash"], "delivered": [g[0] for g in got], "expected": [e[0] for e in expected]})
+
+
+# ------------------------------------------------------------------------------------------------------------------------------
+# the concrete JSON codec of the model (Model/BcpJson.lean) against json.dumps(cls=MpfJSONEncoder) / json.loads
+
+
+def tree_tokens(v):
+    """prefix token form of a JSON-able value for the Lean driver (see Model/BcpJson.lean parseTree)"""
+    if v is None:
+        return ["N"]
+    if isinstance(v, bool):
+        return ["T" if v else "F"]
+    if isinstance(v, int):
+        return ["I%d" % v]
+    if isinstance(v, float):
+        return ["D" + json.dumps(v).encode().hex()]
+    if isinstance(v, str):
+        return ["S" + ("".join("%06x" % ord(c) for c in v) or "-")]
+    if isinstance(v, (list, tuple)):
+        out = ["A%d" % len(v)]
+        for x in v:
+            out += tree_tokens(x)
+        return out
+    if isinstance(v, dict):
+        out = ["O%d" % len(v)]
+        for k, x in v.items():
+            if not isinstance(k, str):
+                raise InfraError("non-str key in a generated dict")
+            out += tree_tokens(k) + tree_tokens(x)
+        return out
+    raise InfraError("no tree form for %r" % (v,))
+
+
+def has_float_special(v):
+    if isinstance(v, float):
+        return v != v
+    if isinstance(v, (list, tuple)):
+        return any(has_float_special(x) for x in v)
+    if isinstance(v, dict):
+        return any(has_float_special(x) for x in v.values())
+    return False
+
+
+def json_case(ctx, m, model, kw):
+    """model jenc == json.dumps(kw, cls=MpfJSONEncoder); model jdec of that text == tree of json.loads"""
+    if model is None or has_float_special(kw):
+        return
+    text = json.dumps(kw, cls=m.MpfJSONEncoder)
+    toks = " ".join(tree_tokens(kw))
+    case = {"kind": "json", "value": typed(kw)}
+    ctx.count("json_codec")
+    ctx.compare(dict(case, what="json.dumps"), "ok " + text.encode().hex(), model.ask("jenc " + toks))
+    back = json.loads(text)
+    ctx.compare(dict(case, what="json.loads"), "ok " + " ".join(tree_tokens(back)), model.ask("jdec " + text.encode().hex()))
+
+
+class Opaque:
+    """an object json does not know: MpfJSONEncoder.default turns it into str(o)"""
+
+    def __init__(self, text):
+        self.text = text
+
+    def __str__(self):
+        return self.text
+
+
+def opaque_case(ctx, m, r, model):
+    """a nested value containing an object json does not know: it is sent as str(o) (MpfJSONEncoder.default) and arrives as
+    that string - recorded and compared with the model's jencOther, not judged (not one of the property's value types)"""
+    text = gen_str(r)
+    kw = {"a": [Opaque(text), 1], "b": gen_scalar(r)}
+    case = {"kind": "opaque", "text": text, "b": typed(kw["b"])}
+    ctx.evaluated(case, True, sample=False)
+    try:
+        line = m.encode_command_string("t", **kw)
+        cmd, back = m.decode_command_string(line)
+    except Exception as e:
+        ctx.count("observed_outside_property_opaque_object_" + type(e).__name__)
+        return
+    ctx.count("opaque_object_arrives_as_its_str" if back["a"][0] == text else "observed_outside_property_opaque_object_differs")
+    if model is not None and not has_float_special(kw["b"]):
+        want = dict(kw, a=[text, 1])
+        ctx.compare(dict(case, what="MpfJSONEncoder.default"), "ok " + json.dumps(kw, cls=m.MpfJSONEncoder).encode().hex(),
+                    model.ask("jenc " + " ".join(tree_tokens(want))))
+
+
 def run(ctx):
     m = impl_funcs()
     model = None if getattr(ctx, "model_unavailable", False) else leanproc.LeanProc(ID)
@@ -377,11 +896,21 @@ def run(ctx):
             one_case(ctx, m, model, gen_cmd(r), gen_kwargs(r, nested), nested)
         for i in range(ctx.n(600, 8000)):
             malformed_case(ctx, m, ctx.rng("mal", i), model)
+        for i in range(ctx.n(60, 600)):
+            opaque_case(ctx, m, ctx.rng("opaque", i), model)
         # the recorded finding's witness (Props/C19.lean reserved_key_bytes_witness), replayed on the real reader
         stream_case(ctx, m, ctx.rng("witness"), model,
                     fixed=[("t", {"a": "b", "bytes": "12"}, None), ("trigger", {"name": "after_it"}, None)])
         for i in range(ctx.n(150, 2500)):
             stream_case(ctx, m, ctx.rng("stream", i), model)
+        for i in range(ctx.n(300, 3000)):
+            dispatch_case(ctx, m, ctx.rng("dispatch", i), model)
+        for i in range(ctx.n(60, 500)):
+            disconnect_case(ctx, m, ctx.rng("disconnect", i))
+        for i in range(ctx.n(150, 1500)):
+            sender_case(ctx, m, ctx.rng("sender", i), model)
+        for i in range(ctx.n(4, 24)):
+            long_line_case(ctx, m, ctx.rng("long", i), model)
     finally:
         if model is not None:
             model.close()
@@ -394,6 +923,8 @@ def one_case(ctx, m, model, cmd, kw, nested, sample=True):
     for v in kw.values():
         ctx.count("val_" + typed(v)[0])
     line = roundtrip_case(ctx, m, cmd, kw, nested)
+    if nested and line is not None:
+        json_case(ctx, m, model, kw)
     if model is not None and line is not None and not nested and kw and next(iter(kw)) != "json":
         ans = model.ask(model_line_for_kwargs(cmd, kw))
         ctx.compare(dict(case, what="encode"), "ok " + hexs(line), ans)
@@ -434,6 +965,21 @@ def replay(ctx, rep):
     case = rep["case"]
     if case["kind"] == "roundtrip":
         roundtrip_case(ctx, m, case["cmd"], untyped(case["kwargs"]), case["nested"])
+    elif case["kind"] == "dispatch":
+        check_dispatch(ctx, case, run_dispatch(m, case["spec"]))
+    elif case["kind"] == "disconnect":
+        obs = run_dispatch(m, case["spec"])
+        exp = case["expected"]["c1"]
+        if obs["logs"].get("c1", [])[:len(exp)] != exp:
+            ctx.fail("dispatch", case, {"got": obs["logs"].get("c1", [])})
+    elif case["kind"] == "sender":
+        crash, wire, expected = run_sender(m, case["ops"])
+        if crash is not None:
+            ctx.fail("sender-crash", case, {"crash": repr(crash)})
+        else:
+            check_sender(ctx, m, None, dict(case, expected=expected, wire={n: w.hex() for n, w in wire.items()}))
+    elif case["kind"] == "long-line":
+        long_line_run(ctx, m, None, case)
     elif case["kind"] == "stream":
         data = bytes.fromhex(case["data"])
         chunks = [bytes.fromhex(c) for c in case.get("chunks", [case["data"]])]
